@@ -143,6 +143,12 @@ class CallMixin:
             return contract(self, fv, args, kwargs, node)
         if self.depth > 60:
             raise Unsupported("recursion depth")
+        for d in getattr(info, "decorators", ()) or ():
+            # a decorator replaces the function: only the ones whose effect the engine implements may be skipped over
+            dn = ast.unparse(d)
+            if not (dn in ("property", "classmethod", "staticmethod", "overload", "abstractmethod") or dn.startswith("functools.wraps(")
+                    or dn.endswith(".setter")):
+                raise Unsupported(f"decorator @{dn} on {key}: its effect on the function is not modelled")
         env = Env(info, info.module, parent=fv.closure)
         self.bind_args(info.node, args, kwargs, env, Env(None, info.module, parent=fv.closure))
         self.functions_entered.add(key)
@@ -358,6 +364,16 @@ class CallMixin:
                 raise Unsupported("getattr with symbolic name")
             default = args[2] if len(args) > 2 else UNDEF
             return self.getattr_value(obj, attr, node, default=default)
+        if name == "setattr":
+            if not isinstance(args[1], str):
+                raise Unsupported("setattr with symbolic name")
+            self.setattr_value(args[0], args[1], args[2], node)
+            return None
+        if name == "object.__setattr__":
+            if not isinstance(args[1], str):
+                raise Unsupported("object.__setattr__ with symbolic name")
+            self.setattr_value(args[0], args[1], args[2], node, raw=True)
+            return None
         if name == "hasattr":
             sentinel = object()
             try:
